@@ -534,7 +534,13 @@ func propC06(t *rapid.T, r *vstat.Run) {
 				} else {
 					in = []byte(gram.Render(t, g, gram.GenInput(t, g), "r"))
 				}
-				if lx, err := b.Lex(string(in)); err == nil {
+				// a system the independent oracle calls left-recursive but Build accepted is not gated by the reference
+				// parser (which cannot run it): the real parser must still return without unbounded recursion
+				missedLR := false
+				if recursive {
+					missedLR, _ = g.LeftRecursive()
+				}
+				if lx, err := b.Lex(string(in)); err == nil && !missedLR {
 					// cost guard (known finding F19 class: exponential backtracking of ambiguous recursive grammars)
 					if _, _, _, _, expensive := runModel(b, lx, false); expensive {
 						r.Count("skipped_expensive")
